@@ -3643,11 +3643,13 @@ impl AbiTraitDefinition {
                                    self.name, old_method.name, old_method.info.arguments.len(), old_version, new_method.info.arguments.len()
                 ));
             }
+            // The return value of a method is in return position, whatever the position
+            // of the trait object itself.
             if let Some(diff) = diff_schema(
                 &new_method.info.return_value,
                 &old_method.info.return_value,
                 "".into(),
-                is_return_position,
+                true,
             ) {
                 return Err(format!("In trait {}, method {}, the return value type has changed from version {}: {}. This is not a backward-compatible change.",
                                    self.name, old_method.name, old_version, diff
